@@ -64,6 +64,11 @@ pub struct Cfg {
     /// (`impl Bx[int32]`) that define the same method names with other bodies; calls on the exact
     /// instantiation, on others, through generic functions, nested, and as `Type::m(..)` paths
     pub overlapping_impls: bool,
+    /// C07/C03: generic functions (and impl methods) whose type parameters occur only in the result type
+    /// (`fn nothing[T]() -> Opt[T]`, `fn tagged[T, U](x: T) -> (T, Opt[U])`, `-> Vec[T]`, `-> (U) -> U`), or in result
+    /// and body but in no parameter; called at several instantiations fixed by an annotation, by a later
+    /// use, or by being passed on
+    pub result_only_generics: bool,
     /// C06: matches with nested patterns (tuples, structs, enums, literals) over random data types
     pub nested_patterns: bool,
     /// C09: the right operand of `&&` / `||` is a "nearly trivial" shape around a printing call
@@ -111,6 +116,12 @@ type Scope = Vec<(String, T)>;
 
 impl<'a> Gen<'a> {
     pub fn new(rng: &'a mut Rng, cfg: Cfg) -> Self {
+        // the flags that extend the rich-generics library mean nothing without it
+        let cfg = Cfg {
+            overlapping_impls: cfg.overlapping_impls && cfg.rich_generics,
+            result_only_generics: cfg.result_only_generics && cfg.rich_generics,
+            ..cfg
+        };
         Gen { rng, cfg, structs: vec![], enums: vec![], fns: vec![], show_impls: vec![], cur_bounded: vec![], inject: None, site_count: BTreeMap::new(), injected: None, top_block: false, uid: 0, feats: BTreeMap::new() }
     }
     fn feat(&mut self, f: &'static str) {
@@ -1276,6 +1287,20 @@ impl<'a> Gen<'a> {
         // type-specific library functions
         if self.rng.chance(1, 2) {
             match t {
+                T::Tuple(ts) if self.cfg.result_only_generics && ts.len() == 2 && matches!(ts[1], T::Opt(_)) && self.rng.chance(1, 2) => {
+                    self.feat("g-result-only-nested");
+                    let a = self.expr(&ts[0], scope, d, pre);
+                    let v = self.fresh("ro");
+                    write!(pre, "let {}: {} = tagged({}); ", v, self.ty_text(t), a).unwrap();
+                    return Some(v);
+                }
+                T::Pr(x, y) if self.cfg.result_only_generics && matches!(**y, T::Opt(_)) && self.rng.chance(1, 2) => {
+                    self.feat("g-result-only-nested");
+                    let a = self.expr(x, scope, d, pre);
+                    let v = self.fresh("ro");
+                    write!(pre, "let {}: {} = defpair({}); ", v, self.ty_text(t), a).unwrap();
+                    return Some(v);
+                }
                 T::Tuple(ts) if ts.len() == 2 => {
                     if ts[0] == ts[1] && self.rng.chance(1, 2) {
                         self.feat("g-dup");
@@ -1307,6 +1332,66 @@ impl<'a> Gen<'a> {
                     let v = self.fresh("pr");
                     write!(pre, "let {}: {} = mkpr({}, {}); ", v, self.ty_text(&T::Pr(y.clone(), x.clone())), a, b).unwrap();
                     return Some(format!("{}.swap()", v));
+                }
+                T::Opt(_) if self.cfg.result_only_generics && self.rng.chance(1, 3) => {
+                    // the type argument of `nothing[T]() -> Opt[T]` is known from the result only
+                    let v = self.fresh("ro");
+                    return Some(match self.rng.below(3) {
+                        0 => {
+                            self.feat("g-result-only-annotated");
+                            write!(pre, "let {}: {} = nothing(); ", v, self.ty_text(t)).unwrap();
+                            v
+                        }
+                        1 => {
+                            self.feat("g-result-only-passed-on");
+                            let c = self.expr(&T::Bool, scope, d, pre);
+                            let e = self.expr(t, scope, d, pre);
+                            format!("pick({}, nothing(), {})", c, e)
+                        }
+                        _ => {
+                            self.feat("g-result-only-impl-method");
+                            write!(pre, "let {}: {} = Opt::empty(); ", v, self.ty_text(t)).unwrap();
+                            v
+                        }
+                    });
+                }
+                T::Lst(u) if self.cfg.result_only_generics && self.rng.chance(1, 3) => {
+                    let v = self.fresh("ro");
+                    return Some(match self.rng.below(4) {
+                        0 => {
+                            self.feat("g-result-only-annotated");
+                            write!(pre, "let {}: {} = lnil(); ", v, self.ty_text(t)).unwrap();
+                            v
+                        }
+                        1 => {
+                            self.feat("g-result-only-passed-on");
+                            let a = self.expr(u, scope, d, pre);
+                            format!("lcons({}, lnil())", a)
+                        }
+                        2 => {
+                            self.feat("g-result-and-body-only");
+                            write!(pre, "let {}: {} = mkl({}); ", v, self.ty_text(t), self.rng.below(2)).unwrap();
+                            v
+                        }
+                        _ => {
+                            self.feat("g-result-only-impl-method");
+                            write!(pre, "let {}: {} = Lst::nil(); ", v, self.ty_text(t)).unwrap();
+                            v
+                        }
+                    });
+                }
+                T::Vec(u) if self.cfg.result_only_generics && self.cfg.vec_generics && self.rng.chance(1, 3) => {
+                    let v = self.fresh("ro");
+                    return Some(if self.rng.chance(1, 2) {
+                        self.feat("g-result-only-annotated");
+                        write!(pre, "let {}: {} = vempty(); ", v, self.ty_text(t)).unwrap();
+                        v
+                    } else {
+                        self.feat("g-result-only-later-use");
+                        let a = self.expr(u, scope, d, pre);
+                        write!(pre, "let {} = vempty(); ", v).unwrap();
+                        format!("vec_push({}, {})", v, a)
+                    });
                 }
                 T::Opt(u) => {
                     if let T::Opt(w) = &**u {
@@ -1482,6 +1567,14 @@ impl<'a> Gen<'a> {
         }
         // functions polymorphic in the result type
         let other = self.rich_ty(1);
+        if self.cfg.result_only_generics && self.rng.chance(1, 8) {
+            // the type argument of `nothing()` is fixed by what is done with the result later
+            self.feat("g-result-only-later-use");
+            let v = self.fresh("ro");
+            let a = self.expr(t, scope, d, pre);
+            write!(pre, "let {} = nothing(); ", v).unwrap();
+            return Some(format!("opt_or({}, {})", v, a));
+        }
         let k = self.rng.below(if self.cfg.vec_generics { 17 } else { 16 });
         Some(match k {
             0 => {
@@ -1635,6 +1728,22 @@ impl[A, B] Pr[A, B] {
 }
 "#,
         );
+        if self.cfg.result_only_generics {
+            src.push_str(
+                r#"fn nothing[T]() -> Opt[T] { Opt::Non }
+fn lnil[T]() -> Lst[T] { Lst::Nil }
+fn tagged[T, U](x: T) -> (T, Opt[U]) { (x, Opt::Non) }
+fn idfn[U](n: int32) -> (U) -> U { |z: U| z }
+fn defpair[A, B](a: A) -> Pr[A, Opt[B]] { Pr { a: a, b: Opt::Non } }
+fn mkl[T](n: int32) -> Lst[T] { let e: Lst[T] = Lst::Nil; if n > 0 { e } else { lnil() } }
+impl[T] Opt[T] { fn empty() -> Opt[T] { Opt::Non } }
+impl[T] Lst[T] { fn nil() -> Lst[T] { Lst::Nil } }
+"#,
+            );
+            if self.cfg.vec_generics {
+                src.push_str("fn vempty[T]() -> Vec[T] { let v: Vec[T] = vec_new(); v }\n");
+            }
+        }
         if self.cfg.overlapping_impls {
             // a generic inherent impl AND inherent impls of single instantiations that define the same
             // method names with bodies that print something else (the typer: the exact impl wins for a
@@ -1929,6 +2038,27 @@ fn show_lst[T: Show](l: Lst[T]) -> string { match l { Lst::Nil => ".", Lst::Cons
             let r = self.fresh("res");
             write!(body, "{}let {} = {}({}); ", pre, r, name, args.join(", ")).unwrap();
             self.show(&ret, &r, &mut body);
+        }
+        if self.cfg.result_only_generics {
+            // every result-only generic at two instantiations, each with its own observable output
+            body.push_str(
+                "let rn1: Opt[int32] = nothing(); let rn2: Opt[string] = nothing(); \
+                 let _ = string_println(int32_to_string(opt_or(rn1, 5))); let _ = string_println(opt_or(rn2, \"d\")); \
+                 let rn3 = nothing(); let _ = string_println(bool_to_string(opt_or(rn3, true))); \
+                 let _ = string_println(int32_to_string(opt_or(nothing(), 9))); \
+                 let rt1: (string, Opt[bool]) = tagged(\"k\"); let rt2: (int32, Opt[int32]) = tagged(3); \
+                 let _ = string_println(rt1.0 + bool_to_string(opt_or(rt1.1, false))); let _ = string_println(int32_to_string(opt_or(rt2.1, rt2.0))); \
+                 let rl1: Lst[bool] = lnil(); let _ = string_println(int32_to_string(llen(lcons(1, lnil())) + llen(rl1))); \
+                 let rf1: (int32) -> int32 = idfn(0); let rf2: (string) -> string = idfn(1); let _ = string_println(int32_to_string(rf1(4)) + rf2(\"q\")); \
+                 let rp1: Pr[int32, Opt[string]] = defpair(1); let rp2: Pr[bool, Opt[int32]] = defpair(true); \
+                 let _ = string_println(opt_or(rp1.b, \"dp\") + int32_to_string(opt_or(rp2.b, 8))); \
+                 let rm1: Lst[int32] = mkl(1); let rm2: Lst[string] = mkl(0); let _ = string_println(int32_to_string(llen(rm1) + llen(rm2))); \
+                 let re1: Opt[int32] = Opt::empty(); let re2: Opt[bool] = Opt::empty(); let re3: Lst[string] = Lst::nil(); \
+                 let _ = string_println(int32_to_string(opt_or(re1, 2) + llen(re3)) + bool_to_string(opt_or(re2, true))); ",
+            );
+            if self.cfg.vec_generics {
+                body.push_str("let rv1: Vec[int32] = vempty(); let rv2 = vec_push(vempty(), \"s\"); let _ = string_println(int32_to_string(vec_len(rv1) + vec_len(rv2))); ");
+            }
         }
         writeln!(src, "fn main() {{ {}() }}", body).unwrap();
         src
